@@ -28,11 +28,19 @@ def _kernel_pivot_rows(kernel_vectors: np.ndarray) -> np.ndarray:
 def _constrain_matrix(
     mat: sparse.sparray | spmatrix,
     pivot_rows: np.ndarray,
+    pivot_cols: np.ndarray | None = None,
 ) -> sparse.csr_array:
-    """Replace selected equations with x[row] = 0 constraints."""
+    """Replace selected equations with x[col] = 0 constraints.
+
+    The equations ``pivot_rows`` are dropped and replaced by the constraints
+    ``x[pivot_cols] = 0``. By default the constrained variables are the same as
+    the dropped equations.
+    """
     constrained = sparse.csr_array(mat)
     if pivot_rows.size == 0:
         return constrained
+    if pivot_cols is None:
+        pivot_cols = pivot_rows
 
     pivot_mask = np.zeros(constrained.shape[0], dtype=bool)
     pivot_mask[pivot_rows] = True
@@ -42,7 +50,7 @@ def _constrain_matrix(
     constrained_coo = constrained.tocoo(copy=False)
     keep = ~pivot_mask[constrained_coo.row]
     rows = np.concatenate((constrained_coo.row[keep], pivot_rows))
-    cols = np.concatenate((constrained_coo.col[keep], pivot_rows))
+    cols = np.concatenate((constrained_coo.col[keep], pivot_cols))
     data = np.concatenate(
         (
             constrained_coo.data[keep],
@@ -106,9 +114,16 @@ def direct_greens_function(
             stacklevel=2,
         )
 
-    pivot_rows = _kernel_pivot_rows(kernel_vectors)
+    # The dependent equations are determined by the left kernel, the gauge freedom
+    # of the solution by the right kernel.
+    pivot_cols = _kernel_pivot_rows(kernel_vectors)
+    pivot_rows = (
+        pivot_cols
+        if left_kernel_vectors is kernel_vectors
+        else _kernel_pivot_rows(left_kernel_vectors)
+    )
     kernel_projector = ComplementProjector(kernel_vectors, left_kernel_vectors)
-    mat = _constrain_matrix(mat, pivot_rows)
+    mat = _constrain_matrix(mat, pivot_rows, pivot_cols)
 
     is_complex = np.iscomplexobj(mat.data)
     try:
